@@ -551,7 +551,24 @@ def r05_4(ctx, prog, crate):
     ctx.check(not ind, "R05.4", ["no-indirect-calls"], "indirect calls in the statistics code: %s" % [(c.body.path, c.name) for c in ind], None)
 
 
+def r05_5(ctx, prog, crate):
+    """The statistics divide by samples.sample_size: it must be the size the retained samples were taken with (stored every
+    round, before the broadcast, from the current_mode.sample_size() read that sizes the round) - shared with C19/R19.5."""
+    from .sampling import Sampling
+    from .C19 import r19_5
+    S = Sampling(prog, crate)
+    if not ctx.anchor("R05.5", "sampling loop", 1 if S.body is not None and S.loop is not None else 0, 1):
+        return
+    r19_5(ctx, S, prog, crate, rule="R05.5")
+    # and compute_stats reads exactly that field
+    cs = prog.body(SCOPE_ROOT, crate)
+    reads = [1 for bi, si, s in cs.stmts() if s["k"] == "assign" and s["rv"]["k"] == "use" and s["rv"]["o"]["k"] in ("copy", "move")
+             and place_fields(s["rv"]["o"]["p"])[-2:] == ("samples", "sample_size")]
+    ctx.check(len(reads) >= 1, "R05.5", [cs.path, "divides-by-recorded-size"], "compute_stats does not read self.samples.sample_size", cs.where(0))
+
+
 def run(ctx, prog, crate):
+    r05_5(ctx, prog, crate)
     r05_1(ctx, prog, crate)
     r05_2(ctx, prog, crate)
     r05_3(ctx, prog, crate)
